@@ -696,7 +696,11 @@ def check_tick(res, facts, prop):
                            'accumulator after a non-wrapping tick = %r, expected acc + increment' % (got_acc,), where, key='R-FSM:%s:stay-acc' % inst0)
                     res.ob('R-FSM', inst0 + '->stay|flag', bool_of(o.ctx, pa1.get('rolled_over')) is False, 'rolled_over left set: %r' % (pa1.get('rolled_over'),), where, key='R-FSM:%s:stay-flag' % inst0)
                 if live:
-                    res.ob('R-FSM', inst0 + '->stay|progress', o.ctx.decide(cmp_term('Gt', got_acc, acc0)) is True,
+                    prog = o.ctx.decide(cmp_term('Gt', got_acc, acc0)) is True
+                    if not prog and rolled is False and (got_acc == exp_acc or got_acc == t_mod(total_sum, Poly.const(mask + 1), o.ctx)):
+                        # acc' = (acc + inc) mod 2^T on a path that implies acc + inc <= mask: the sum itself
+                        prog = o.ctx.rng(inc1.term)[0] >= 1
+                    res.ob('R-FSM', inst0 + '->stay|progress', prog,
                            'accumulator after a non-wrapping tick = %r: not provably above the accumulator before (%r), the phase may never end' % (got_acc, acc0), where, key='R-FSM:%s:stay-progress' % inst0)
             elif live:
                 # termination only needs the envelope to end up AT its target level: a jump ahead in the same chain
